@@ -412,7 +412,7 @@ pub fn c07_case(t: &mut Tctx, gb: &mut GuardBuf, shape: &Shape, text: &str, sfp:
             with_shape(shape, || postcard::take_from_bytes_cobs::<DynVal>(placed).map(|(v, rem)| (v.0, rem.as_ptr() as usize, rem.len())))
         });
         t.st.count("guarded_cobs_decodes");
-        let after: Vec<u8> = unsafe { std::slice::from_raw_parts(base as *const u8, total) }.to_vec();
+        let after: Vec<u8> = gb.peek(at_tail, total).to_vec();
         if at_tail && t.st.want_sample() && input.len() >= 2 && input.len() <= 16 && t.rng.chance(1, 128) {
             let mut j = J::obj();
             j.set("target", J::s(text)).set("input", J::s(hex(input))).set("class", J::s(class));
